@@ -3,7 +3,7 @@
 import ast
 
 from sa import AnalysisError
-from sa.kinds import key, utext, call_name, calls_in, get_effects, all_stores, short
+from sa.kinds import key, utext, call_name, calls_in, get_effects, all_stores, short, node_calls
 from sa.cfg import walk_calls, walk_nodes
 from sa.typestate import Typestate, NONE
 
@@ -224,6 +224,18 @@ def run(ctx, rep):
                           "the stream processor may re-open to EXECUTABLE only from %s, got %s" % (
                               sorted(allowed), sorted(got)))
         rep.floor("R2b", "executable() sites in %s" % fq, n2, 1)
+
+    # the Betdaq processor leaves UPDATING when the exchange's sequence number has moved on: the number it
+    # compares with is the one the order carried BEFORE this message was stored (read after the store the two are
+    # always equal and an updated order stays in flight for good)
+    bf = prog.func("process.process_betdaq_current_order")
+    cfgb = ctx.cfg(bf)
+    store = [n for n, c in node_calls(cfgb, "update_current_order")]
+    olds = [n for n in cfgb.live_nodes() if n.kind == "stmt" and isinstance(n.ast, ast.Assign)
+            and "sequence_number" in utext(n.ast.value) and "order.current_order" in utext(n.ast.value)]
+    rep.check(len(store) == 1 and bool(olds) and all(cfgb.dominates(o.id, store[0].id) for o in olds), "R2b",
+              key(bf, None, "the previous sequence number is read before the new message is stored"), bf,
+              olds[0].ast if olds else None)
 
     # ------------------------------------------------------------------ R5 bet id discipline
     bet_id_writers(ctx, rep, "R5")
